@@ -8,8 +8,10 @@ package quic
 // harness-owned network and counts whole datagrams per remote address.
 
 import (
+	"bytes"
 	"context"
 	"crypto/tls"
+	"encoding/binary"
 	"fmt"
 	"net/netip"
 	"sort"
@@ -19,6 +21,7 @@ import (
 	"testing/synctest"
 	"time"
 
+	"golang.org/x/net/internal/quic/quicwire"
 	"golang.org/x/net/internal/zzverif/vx"
 )
 
@@ -26,7 +29,20 @@ type c27Scn struct {
 	RAV      bool `json:"rav"`       // server Config.RequireAddressValidation (Retry)
 	BigHello bool `json:"big_hello"` // client offers many ALPN names: the ClientHello needs two Initial datagrams
 	Chain    int  `json:"chain"`     // certificates in the server's chain (1 = flight fits one datagram, 10 = flight exceeds 3 x 1200 bytes)
+	// Token is what the token field of the client's Initial packets carries
+	// when it reaches the network (the packets are re-protected with the
+	// public Initial keys, as any sender can do):
+	//	""          what the real client wrote: empty, or the token of a Retry
+	//	"junk"      an empty token field is replaced by c27JunkToken, a token no
+	//	            server ever issued (a Retry token is left alone)
+	//	"badretry"  a non-empty token (the one from a Retry) has its last byte
+	//	            flipped; only meaningful with RAV
+	Token string `json:"token,omitempty"`
 }
+
+// c27JunkToken is long enough to pass validateToken's length check and reach
+// the AEAD.
+var c27JunkToken = []byte{0xc2, 0x7c, 0x27, 0xc2, 0x7c, 0x27, 0xc2, 0x7c}
 
 type c27Case struct {
 	Scn  c27Scn   `json:"scn"`
@@ -45,6 +61,8 @@ type c27Run struct {
 	dialOK    bool
 	voidBytes int // bytes the server sent to the spoofed address
 	retry     bool
+	retok     int  // client Initial packets whose token field was rewritten (Scn.Token)
+	tokValid  bool // a token the server had issued to an address came back from it
 	trace     []c19TraceEnt
 	dbg       func(string)
 }
@@ -106,15 +124,34 @@ func c27Bubble(r *c27Run, cs c27Case) {
 		}
 	}
 	hsFrom := map[netip.AddrPort]bool{}
+	issued := map[netip.AddrPort][][]byte{} // tokens of the Retry packets the server wrote to the address
+	tokFrom := map[netip.AddrPort]bool{}    // a complete Initial carrying one of them was delivered from the address
 	p.net.onDeliver = func(d *c19Dgram, size int, from netip.AddrPort) {
 		if d.to == c19ServerAddr {
 			recv[from] += size
-			if c27HasHandshakePacket(d.b[:size]) {
+			hs, toks := c27WalkDatagram(d.b[:size])
+			if hs {
 				hsFrom[from] = true
+			}
+			for _, tk := range toks {
+				for _, is := range issued[from] {
+					if len(tk) > 0 && bytes.Equal(tk, is) {
+						tokFrom[from] = true
+						r.tokValid = true
+					}
+				}
 			}
 		}
 	}
+	var retokCIDs [][]byte
 	p.net.onWrite = func(d *c19Dgram) {
+		if d.from == c19ClientAddr && sc.Token != "" {
+			// The client's datagram enters the network with the scenario's
+			// token field (before any deviation is applied to it).
+			var n int
+			d.b, n = c27Retoken(d.b, sc.Token, &retokCIDs)
+			r.retok += n
+		}
 		if d.from != c19ServerAddr {
 			return
 		}
@@ -130,12 +167,19 @@ func c27Bubble(r *c27Run, cs c27Case) {
 		}
 		if len(d.b) > 0 && d.b[0]&0xf0 == 0xf0 {
 			r.retry = true
+			if tk := c27RetryToken(d.b); len(tk) > 0 {
+				issued[a] = append(issued[a], tk)
+			}
 		}
-		// Validated = the implementation says so (white-box) AND, black-box, a
-		// datagram carrying a complete Handshake packet has been delivered
-		// from that address (a necessary condition for the implementation's
-		// own rule, so that a conn that lifts its limit too early is caught).
-		if valid[a] && hsFrom[a] {
+		// Validated = the implementation says so (white-box) AND, black-box,
+		// one of the two events RFC 9000 section 8.1 accepts as validation
+		// can have happened: a datagram carrying a complete Handshake packet
+		// has been delivered from that address, or a complete Initial packet
+		// delivered from it carried, byte for byte, the token of a Retry
+		// packet the server had written to that very address (necessary
+		// conditions, so that a conn that lifts its limit on anything less,
+		// e.g. on a token nobody issued, is caught).
+		if valid[a] && (hsFrom[a] || tokFrom[a]) {
 			return
 		}
 		slack := 3*recv[a] - sent[a]
@@ -186,10 +230,41 @@ func c27Bubble(r *c27Run, cs c27Case) {
 	synctest.Wait()
 }
 
-// c27HasHandshakePacket walks the coalesced long-header packets of a datagram
-// in clear text (RFC 9000 section 17.2) and reports whether a complete
-// Handshake packet is among them.
+// c27HasHandshakePacket reports whether a complete Handshake packet is among
+// the coalesced packets of a datagram.
 func c27HasHandshakePacket(b []byte) bool {
+	hs, _ := c27WalkDatagram(b)
+	return hs
+}
+
+// c27WalkDatagram walks the coalesced long-header packets of a datagram
+// in clear text (RFC 9000 section 17.2) and reports whether a complete
+// Handshake packet is among them, and the token fields of the complete
+// Initial packets before it.
+func c27WalkDatagram(b []byte) (hasHandshake bool, initialTokens [][]byte) {
+	toks := [][]byte(nil)
+	return c27walk(b, &toks), toks
+}
+
+// c27RetryToken returns the token of a Retry packet (RFC 9000 section 17.2.5:
+// everything between the source connection ID and the 16-byte integrity tag).
+func c27RetryToken(b []byte) []byte {
+	if len(b) < 7 || b[0]&0xf0 != 0xf0 {
+		return nil
+	}
+	i := 5
+	i += 1 + int(b[i]) // dcid
+	if len(b) < i+1 {
+		return nil
+	}
+	i += 1 + int(b[i]) // scid
+	if len(b) < i+16 {
+		return nil
+	}
+	return append([]byte(nil), b[i:len(b)-16]...)
+}
+
+func c27walk(b []byte, toks *[][]byte) bool {
 	varint := func(b []byte) (uint64, int) {
 		if len(b) == 0 {
 			return 0, -1
@@ -221,10 +296,14 @@ func c27HasHandshakePacket(b []byte) bool {
 		if typ == 3 {
 			return false // Retry
 		}
+		var tok []byte
 		if typ == 0 { // Initial: token
 			tl, n := varint(b[min(i, len(b)):])
 			if n < 0 {
 				return false
+			}
+			if i+n+int(tl) <= len(b) {
+				tok = b[i+n : i+n+int(tl)]
 			}
 			i += n + int(tl)
 		}
@@ -242,9 +321,106 @@ func c27HasHandshakePacket(b []byte) bool {
 		if typ == 2 {
 			return true
 		}
+		if typ == 0 {
+			*toks = append(*toks, append([]byte(nil), tok...))
+		}
 		b = b[end:]
 	}
 	return false
+}
+
+// c27Retoken returns the client datagram b with the token field of its
+// Initial packets set according to mode (see c27Scn.Token), and how many
+// packets were changed. Initial packets are protected with keys derived from
+// a connection ID that travels in clear (RFC 9001 section 5.2), so this is
+// what any sender, including one that never talked to the server, can
+// produce. cids collects the destination connection IDs seen in the client's
+// Initial packets: the keys come from the first one, or from the first one
+// after a Retry. The added header bytes are taken out of the trailing PADDING
+// frames of the packet when there are any, so a padded datagram keeps its
+// size. Packets that cannot be opened are passed through unchanged.
+func c27Retoken(b []byte, mode string, cids *[][]byte) ([]byte, int) {
+	var out []byte
+	changed := 0
+	rest := b
+	for len(rest) > 0 {
+		if !isLongHeader(rest[0]) || getPacketType(rest) == packetTypeVersionNegotiation {
+			break
+		}
+		n := skipLongHeaderPacket(rest)
+		if n < 0 {
+			break
+		}
+		pkt := rest[:n]
+		rest = rest[n:]
+		if getPacketType(pkt) != packetTypeInitial {
+			out = append(out, pkt...)
+			continue
+		}
+		g, ok := parseGenericLongHeaderPacket(pkt)
+		if !ok {
+			out = append(out, pkt...)
+			continue
+		}
+		seen := false
+		for _, c := range *cids {
+			seen = seen || bytes.Equal(c, g.dstConnID)
+		}
+		if !seen {
+			*cids = append(*cids, append([]byte(nil), g.dstConnID...))
+		}
+		var p longPacket
+		var keys fixedKeys
+		var clear []byte
+		opened := false
+		for i := len(*cids) - 1; i >= 0 && !opened; i-- {
+			keys = initialKeys((*cids)[i], clientSide).w // fresh: keys carry scratch state
+			clear = append([]byte(nil), pkt...)
+			var m int
+			p, m = parseLongHeaderPacket(clear, keys, 0)
+			opened = m == n
+		}
+		if !opened {
+			out = append(out, pkt...)
+			continue
+		}
+		var tok []byte
+		switch {
+		case mode == "junk" && len(p.extra) == 0:
+			tok = c27JunkToken
+		case mode == "badretry" && len(p.extra) > 0:
+			tok = append([]byte(nil), p.extra...)
+			tok[len(tok)-1] ^= 0xff
+		default:
+			out = append(out, pkt...)
+			continue
+		}
+		pnumLen := int(clear[0]&3) + 1
+		oldHdr := n - len(p.payload) - 16 // header incl. packet number
+		pnumBytes := clear[oldHdr-pnumLen : oldHdr]
+		hdr := []byte{clear[0]}
+		hdr = binary.BigEndian.AppendUint32(hdr, p.version)
+		hdr = quicwire.AppendUint8Bytes(hdr, p.dstConnID)
+		hdr = quicwire.AppendUint8Bytes(hdr, p.srcConnID)
+		hdr = quicwire.AppendVarintBytes(hdr, tok)
+		pay := p.payload
+		grow := len(hdr) + 2 + pnumLen - oldHdr
+		for grow > 0 && len(pay) > 4 && pay[len(pay)-1] == 0 {
+			pay = pay[:len(pay)-1]
+			grow--
+		}
+		plen := pnumLen + len(pay) + 16
+		hdr = append(hdr, 0x40|byte(plen>>8), byte(plen))
+		pnumOff := len(hdr)
+		hdr = append(hdr, pnumBytes...)
+		out = append(out, keys.protect(hdr, append([]byte(nil), pay...), pnumOff, p.num)...)
+		changed++
+	}
+	out = append(out, rest...)
+	if changed == 0 {
+		return b, 0
+	}
+	return out, changed
 }
 
 func c27Exec(t *testing.T, cs c27Case, dbg func(string)) *c27Run {
@@ -272,13 +448,19 @@ func c27Report(w *vx.W, cs c27Case, r *c27Run) {
 			} else {
 				sig += "/retry-off"
 			}
+			switch cs.Scn.Token {
+			case "junk":
+				sig += "/unissued-token"
+			case "badretry":
+				sig += "/damaged-retry-token"
+			}
 		}
 		w.Fail(sig, f.what+fmt.Sprintf(" [datagrams=%d applied=%d]", r.ndgrams, r.applied))
 	}
 	// Non-trivial: every deviation took effect and the limit was really
 	// binding (the server came within one full-size datagram of it, or was
 	// seen blocked).
-	if r.applied == len(cs.Devs) && (r.minSlack < 1200 || r.blocked) {
+	if r.applied == len(cs.Devs) && (r.minSlack < 1200 || r.blocked) && (cs.Scn.Token == "" || r.retok > 0) {
 		w.Nontrivial()
 	}
 	sl := "slack>=1200"
@@ -290,7 +472,7 @@ func c27Report(w *vx.W, cs c27Case, r *c27Run) {
 	case r.minSlack < 1200:
 		sl = "slack<1200"
 	}
-	w.Outcome(fmt.Sprintf("dial=%v/validated=%v/blocked=%v/%s/void=%v/retry=%v", r.dialOK, r.validated, r.blocked, sl, r.voidBytes > 0, r.retry))
+	w.Outcome(fmt.Sprintf("dial=%v/validated=%v/blocked=%v/%s/void=%v/retry=%v/tokenback=%v", r.dialOK, r.validated, r.blocked, sl, r.voidBytes > 0, r.retry, r.tokValid))
 }
 
 func TestVerif_C27(t *testing.T) {
@@ -300,6 +482,20 @@ func TestVerif_C27(t *testing.T) {
 			for _, chain := range []int{1, 10} {
 				for _, rav := range []bool{false, true} {
 					scns = append(scns, c27Scn{RAV: rav, BigHello: big, Chain: chain})
+				}
+			}
+		}
+		// The Initial-token dimension of the client's input: on both server
+		// configurations a token nobody issued; with Retry also a damaged
+		// copy of the issued one (the intact one is what the real client
+		// returns in the scenarios above).
+		for _, big := range []bool{false, true} {
+			for _, chain := range []int{1, 10} {
+				for _, rav := range []bool{false, true} {
+					scns = append(scns, c27Scn{RAV: rav, BigHello: big, Chain: chain, Token: "junk"})
+					if rav {
+						scns = append(scns, c27Scn{RAV: rav, BigHello: big, Chain: chain, Token: "badretry"})
+					}
 				}
 			}
 		}
